@@ -128,6 +128,7 @@ func runResp(focus string) func(s *simrt.Sim) {
 		faults := simrt.Mode() != "nofault"
 		s.SetSticky([]int{2, 4, 10}[tp.Draw(3, "sched.strategy")])
 		s.SetSelectOrder(tp.Draw(3, "selectorder"))
+		s.SetSelectYield(tp.Chance(1, 2, "selectyield"))
 		s.SetMapOrder(tp.Draw(3, "maporder"))
 		e := newH2(s, focus)
 		if faults {
